@@ -1,9 +1,9 @@
 From Coq Require Import QArith Qcanon Qcabs.
-From Raptor Require Import Base.Sums Sparse.Defs Extract.Inst Amg.Strength Amg.Interp Extract.Inst_interp.
+From Raptor Require Import Base.Sums Sparse.Defs Extract.Inst Amg.Strength Amg.Interp Amg.Truncate Extract.Inst_interp.
 Require Import ExtrOcamlBasic.
 Extraction Language OCaml.
 Extraction "model_interp.ml"
   Q2Qc Qcplus Qcmult Qcminus Qcopp Qcinv Qcdiv Qccompare Coq.QArith.Qcabs.Qcabs
   Qc_small Qc_ltb Qc_leb Qc_eqb
   q_strength_seq q_strength_par
-  q_direct q_par_direct q_mod_classical q_extended q_interp_ok.
+  q_direct q_par_direct q_mod_classical q_extended q_interp_ok q_filter_interp.
